@@ -694,14 +694,19 @@ def line_level_validation(chk, meta, out):
         full = HEADER + text
         raw = full.encode('utf-8')
         want = sorted({1 + raw[:hb + st].count(b'\n') for st in starts})
+        if (i + chk.seed) % 8 < 4:
+            # every second one of them with CRLF line ends behind 60 more (CRLF) comment lines: whatever a line table gets wrong per line
+            # has added up to more than a line's length by then. Same line structure, so the same lines are expected
+            want = [w + 60 for w in want]
+            full = (HEADER + '// filler line\n' * 60 + text).replace('\n', '\r\n')
         jobs.append(['analyze', oracle.CATEGORY[detector], detector, chk.native.file(full)])
         exp.append((detector, label, full, want))
     for (detector, label, full, want), r in zip(exp, chk.native.run(jobs)):
         chk.states += 1
         got = [int(x) for x in r[1].split(',') if x] if r[0] == 'OK' else r
         if got != want:
-            chk.violation('%s:lines' % detector, '%s [%s] behind a multi-byte header: analyze_for_%s reports lines %r, the flagged constructs begin on lines %r' % (
-                detector, label, oracle.CATEGORY[detector], got, want), {'job': 'analyze', 'category': oracle.CATEGORY[detector], 'detector': detector, 'source': full, 'expected': want, 'observed': got})
+            chk.violation('%s:lines' % detector, '%s [%s] behind a multi-byte header%s: analyze_for_%s reports lines %r, the flagged constructs begin on lines %r' % (
+                detector, label, ' with CRLF line ends' if '\r' in full else '', oracle.CATEGORY[detector], got, want), {'job': 'analyze', 'category': oracle.CATEGORY[detector], 'detector': detector, 'source': full, 'expected': want, 'observed': got})
 
 
 def flush_validation(chk, results):
